@@ -468,9 +468,13 @@ where
     let _enter = span.enter();
 
     loop {
-        let split_target = (min + max) / 2.0;
+        let middle = (min + max) / 2.0;
         // Whether the search interval cannot be narrowed anymore.
-        let exhausted = !(min < split_target && split_target < max);
+        let exhausted = !(min < middle && middle < max);
+        // The last probe is made at max: the rounded middle of two adjacent
+        // floats may be min, which would leave the points located at min on
+        // the wrong side of the cut.
+        let split_target = if exhausted { max } else { middle };
 
         // count_left: the number of points that are on the left of split_target
         // weight_left: the weight of all those points
